@@ -299,6 +299,44 @@ def linked_output_case(args):
         sc.close()
 
 
+def resumed_pairing_case(args):
+    """a partially completed workflow is resumed: outputs of later tasks of a process are on disk, an earlier one has to be
+    recomputed (and is slow); a downstream process pairs that stream with a parameter stream by position.  The records of the
+    newly produced files are those of an uninterrupted run: same commands, same upstream lineage"""
+    seed, i = args
+    rng = random.Random(seed * 413158561 + i)
+    sp = t3.Spec(maxtasks=rng.randint(2, 4), bufsize=rng.choice([1, 2, 128]))
+    L = rng.randint(3, 6)
+    paths = ["rp%d.txt" % j for j in range(L)]
+    for p in paths:
+        sp.files[p] = p + "\n"
+    s = sp.src("src", paths)
+    slow = 'sleep 0.$(( $(echo {i:a|basename} | tr -dc 0-9) == 0 ? 3 : 0 ))1'
+    cp = sp.proc(t3.Proc("cp", kind="cat", ins=[("a", [(s, "out")])], outs=[("o", "{i:a}.cp")], sleep=slow))
+    sp.proc(t3.Proc("pair", kind="cattok", ins=[("a", [(cp, "o")])], pars=[("q", ("V", ["k%d" % j for j in range(L)]))], outs=[("o", "{i:a}.{p:q}.pair")]))
+    model = t3.run_model(sp.text())
+    sc = t3.Scratch()
+    try:
+        sc.plant(sp.files)
+        # first run: everything; then the first item's chain is removed (its cp output, the pair outputs of all items)
+        r1 = t3.run_impl(sc, sp, timeout=60)
+        problems = []
+        if r1["rc"] != 0:
+            problems.append(("unexpected-failure", r1["stderr"][-200:]))
+        for f in list(os.listdir(sc.work)):
+            if f.endswith(".pair") or f.endswith(".pair.audit.json") or f.startswith(paths[0] + ".cp"):
+                os.remove(os.path.join(sc.work, f))
+        r2 = t3.run_impl(sc, sp, timeout=60)
+        if r2["rc"] != 0 or not r2["returned"]:
+            problems.append(("resume-fails", "the resumed run exits %s: %s" % (r2["rc"], (r2["stderr"] + r2["log_tail"])[-400:])))
+        else:
+            problems += lineage_problems(model, r2["fs"], None, tag="[resumed, later siblings on disk] ")
+        return {"spec": sp.text(), "bufsize": sp.bufsize, "problems": problems[:4], "ntasks": len(model["tasks"]), "rc": r2["rc"], "stderr": r2["stderr"][-200:], "yield": None,
+                "wall": r2["wall"], "mode": "resumed-pairing", "point": None}
+    finally:
+        sc.close()
+
+
 def two_workflows_case(args):
     """one program, two Workflow objects set up in advance and run one after the other: the first produces (and tags) files, the
     second starts from them with a FileSource.  History: an earlier invocation stopped after the producer (RunTo) -- before
@@ -381,6 +419,7 @@ def run(rep, tier, seed):
     results += t3.run_many(two_workflows_case, [(seed, i) for i in range(6 if tier == "quick" else 80)])
     results += t3.run_many(dir_output_case, [(seed, i) for i in range(6 if tier == "quick" else 80)])
     results += t3.run_many(linked_output_case, [(seed, i) for i in range(6 if tier == "quick" else 80)])
+    results += t3.run_many(resumed_pairing_case, [(seed, i) for i in range(6 if tier == "quick" else 60)])
     found = t3.report_t3(rep, MODULE, proved, results, "T3 resumed histories: audit lineage vs the uninterrupted run")
     jl = json_roundtrip(rng, 300 if tier == "quick" else 5000)
     diffs, impl, model = vlib.t2_compare("json", jl)
